@@ -101,6 +101,7 @@ def run(ctx):
         ps = [c for c in ar.calls if c.name == "push_str"]
         rep = any(any("replacement" in field_path(o.proj) for ff, o in ultimate_roots(prog, ar, c.args[1], TRANSPARENT | {"next", "into_iter", "deref"})) for c in ps)
         ctx.ob("R1", "apply_rewrite inserts the accepted replacement", rep, "push_str of diff.replacement", where=ar.loc())
+    frame_agreement(ctx, "R1")
     pd = ctx.anchor("R1", r"^ast_grep::print::interactive_print::process_diffs_interactive$")
     if pd:
         pushes = [c for c in pd.calls if c.name == "push" and "Vec" in c.best]
@@ -221,6 +222,13 @@ def run(ctx):
     ctx.floor("R2", "PathWorker::produce_item impls", n, 3)
 
     r3(ctx)
+    from .c01 import r9 as overlap_boundary
+    from ..core import Ctx
+    sub = Ctx("C01", ctx.tier, prog)
+    overlap_boundary(sub)
+    for o in sub.obligations:
+        if "ast_grep::print::" in o["key"] or o["key"].startswith("R9:floor"):
+            ctx.ob("R1", o["key"].split(":", 1)[1], o["ok"], o["detail"], where=o["where"], nontrivial=o.get("nontrivial", True))
 
 
 MUTATORS = re.compile(r"::(retain|retain_mut|dedup\w*|remove|swap_remove|truncate|drain|pop|clear|split_off|sort\w*|reverse|rotate\w*|swap|insert|push|extend\w*|append)$")
@@ -282,3 +290,29 @@ def r3(ctx):
             ok = not muts and direct
         ctx.ob("R3", "ScanWithConfig::produce_item/selected rules reach CombinedScan::new unmodified", ok,
                "CombinedScan::new receives the vector returned by %s as is" % selector if ok else "the rule vector is modified between selection and CombinedScan::new (%s) or does not come straight from %s" % (muts, selector), where=f.loc())
+
+
+def frame_agreement(ctx, rid):
+    prog = ctx.prog
+    # frame agreement: Diff ranges are absolute offsets into the DOCUMENT text (Root::get_text); tree-sitter's root node may start
+    # after leading whitespace, so a node's text() is another frame — the snapshot the splice is based on must be the document text
+    from ..query import value_sources
+    n_snap = 0
+    for f, bi, si, st in prog.aggregates_of(r"^ast_grep::print::interactive_print::Diffs$"):
+        if f.impl_trait in ("core::clone::Clone", "core::fmt::Debug"):
+            continue
+        ops = dict(zip(st[2][1]["fields"], st[2][2]))
+        if "old_source" not in ops or ops["old_source"][0] == "k":
+            continue
+        srcs = value_sources(prog, f, ops["old_source"])
+        if any(o.kind == "param" and "old_source" in field_path(o.proj) for ff, o in srcs):
+            continue  # moved from another Diffs payload
+        n_snap += 1
+        names = sorted({o.ref.best if o.kind == "call" else describe_origin(ff, o) for ff, o in srcs})
+        good = bool(srcs) and all(o.kind == "call" and re.search(r"(Root::<D>::get_text|Diff::<'n>::get_root_text|Doc::get_source|AstGrep::<D>::source|Root::<D>::source)$", o.ref.best) or
+                                  (o.kind == "call" and o.ref.name == "new" and "String" in o.ref.best) for ff, o in srcs)
+        ctx.ob(rid, "Diffs.old_source built in %s is the document text" % f.id, good,
+               "snapshot comes from %s" % names if good else
+               "the snapshot that apply_rewrite splices comes from %s, not from the document text (Root::get_text): Diff ranges are absolute document offsets, "
+               "a node's text() starts at the node (tree-sitter's root node skips leading whitespace), so every edit is shifted" % names, where=f.loc(st[3]))
+    ctx.floor(rid, "Diffs snapshot sites", n_snap, 2)
